@@ -29,7 +29,7 @@ def optNat (j : Json) : R (Option Nat) :=
   | v => do return some (← nat v)
 
 /-- one operation, as a JSON array:
-`["add", e, id, stops, p|null]`, `["dispatch", e, stopped]`, `["has", e|null]`, `["get", e|null]`,
+`["add", e, id, stops, p|null]`, `["dispatch", e, stopped]`, `["dispatchN", e, n]`, `["has", e|null]`, `["get", e|null]`,
 `["prio", e, id, stops]` (a listener is its id and whether it stops propagation) -/
 def op (j : Json) : R Op := do
   let a ← match j with
@@ -45,6 +45,9 @@ def op (j : Json) : R Op := do
   | .str "dispatch" =>
     if a.size != 3 then throw "dispatch: 3 fields expected"
     return .dispatch (← nat (← fld a 1)) (← bool (← fld a 2))
+  | .str "dispatchN" =>     -- a fresh user event that reports itself stopped after n listener calls
+    if a.size != 3 then throw "dispatchN: 3 fields expected"
+    return .dispatchN (← nat (← fld a 1)) (← nat (← fld a 2))
   | .str "has" =>
     if a.size != 2 then throw "has: 2 fields expected"
     return .hasListeners (← optNat (← fld a 1))
